@@ -133,7 +133,7 @@ def _bid(p):
     return (p.base, p.off) if isinstance(p, Ptr) else p
 
 
-def writer_events(P, fname, graph, root):
+def writer_events(P, fname, graph, root, args=None):
     fn = P.fn(fname, PT)
     hooks = {"thrift_encoder_init": lambda ev, a, it: None, "thrift_encoder_has_error": lambda ev, a, it: 0,
              "thrift_write_struct_begin": lambda ev, a, it: ev.append(("sb",)), "thrift_write_struct_end": lambda ev, a, it: ev.append(("se",)),
@@ -146,7 +146,8 @@ def writer_events(P, fname, graph, root):
              "carquet_error_set": lambda ev, a, it: None, "strlen": lambda ev, a, it: BINLEN}
     for nm, k in W_PRIMS.items():
         hooks[nm] = (lambda ev, a, it, k=k: ev.append((k, a[1])))
-    ret, ev, heap = sem.run(P, fn, [Ptr(root, 0, 1), Ptr("outbuf", 0, 1), 0], heap0=dict(graph.heap), hooks=hooks, single=True,
+    ret, ev, heap = sem.run(P, fn, args if args is not None else [Ptr(root, 0, 1), Ptr("outbuf", 0, 1), 0],
+                            heap0=dict(graph.heap if hasattr(graph, "heap") else graph), hooks=hooks, single=True,
                             max_forks=64, budget=2000000, inline_depth=8)
     return ret, ev
 
@@ -178,7 +179,7 @@ def build_tree(ev):
                 raise ValueError("value without a field header: %s" % (e,))
             pos[0] += 1
             if ev[pos[0]][0] in ("fh", "se", "stop"):
-                fields.append((e[2], e[1], {"k": "none", "v": ()}))     # a bool carried by the header type
+                fields.append((e[2], e[1], {"k": "none", "v": (), "ty": e[1]}))     # a bool carried by the header type
             else:
                 fields.append((e[2], e[1], value()))
         pos[0] += 1
@@ -272,7 +273,8 @@ def parse_with_replay(P, fname, tree, args_for, out_base):
                 ev.append(("desync", kind, None))
                 return U
             if v["k"] == "none":
-                return 1
+                # compact protocol: BOOLEAN_TRUE = 1, BOOLEAN_FALSE = 2 in the field header
+                return (1 if v.get("ty") == 1 else 0) if v.get("ty") in (1, 2) else 1
             if v["k"] in ("bin", "str", "list", "struct"):
                 ev.append(("desync", kind, v["k"]))
                 return U
@@ -468,19 +470,52 @@ def _emitted(ev):
     return ints, blocks
 
 
-def settle_extraction(ctx, decided):
-    """The grammar extraction reads the writers' call sequences; when a writer is organised in a way it does not
-    follow (descriptor tables, helpers taking the field id) it says so. The semantic probe decides the same clauses
-    on what the writer emits, so an extraction that gave up is then not a gap."""
+def settle_extraction(ctx, decided, logical_ok=False):
+    """The grammar extraction reads the writers' and parsers' call sequences and compares them field by field. It is a
+    reading of shapes: when a writer is organised in a way it does not follow (descriptor tables, helpers taking the
+    field id) it gives up, and when a parser stores through an out-parameter, a moving pointer or a lookup table its
+    "no case for this field" / "another member" verdicts have no execution behind them. The semantic probes decide the
+    same clauses on what is emitted and what comes back:
+
+      * extraction verdicts (given up *or* adverse) about LogicalType members are settled by the parameter round trip
+        of rules/logicaltype.py when every scenario of it came back intact;
+      * the others are settled by the round-trip probe of their root when that probe is conclusive and lost nothing
+        in the record the verdict is about (a loss is reported by the probe itself, keyed by record).
+
+    Nothing is settled when the probe that would vouch for it is inconclusive."""
     from .. import report
-    if not decided:
-        return 0
     n = 0
+    lost_records = set()
+    lossy_writers = set()      # "<file>:<writer>" of roots whose probe lost something: adverse verdicts there stand
     for o in ctx.obs:
-        if o.status == report.INCONCLUSIVE and (o.key.startswith("writer-shape|") or (o.key.startswith("field|") and o.rule in ("R5.agree", "R5.shape", "R5.spec"))):
-            o.status = report.DISCHARGED
-            o.how = "call-sequence extraction gave up (%s); the clause is decided on the emitted tree by the round-trip probe" % (o.how or "")[:160]
-            n += 1
+        if o.key.startswith("roundtrip|") and o.key.count("|") >= 3 and o.status == report.VIOLATION:
+            lost_records.add(o.key.split("|")[-1])
+            lossy_writers.add(o.key.split("|")[1])
+    any_loss = bool(lost_records)
+    for o in ctx.obs:
+        ext = o.key.startswith("writer-shape|") or (o.key.startswith("field|") and o.rule in ("R5.agree", "R5.shape", "R5.spec"))
+        if not ext or o.status == report.DISCHARGED:
+            continue
+        logical = "LogicalType." in o.key or "write_logical_type" in o.key or "parse_logical_type" in o.key
+        if logical:
+            if not logical_ok:
+                continue
+            why = "the LogicalType parameter round trip (every member, every parameter combination of its grid) is intact"
+        else:
+            if not decided:
+                continue
+            if o.status != report.INCONCLUSIVE:
+                # an adverse verdict is only overruled when the probe compared that part of the tree and lost nothing there:
+                # the page-header probes have a recorded loss (statistics), so verdicts about statistics stay
+                if o.key.split("|")[1] in lossy_writers or (any_loss and ("Statistics" in o.key or "statistics" in o.key)):
+                    continue
+            why = "the round-trip probe compared every serialised member of this root and lost none here"
+        if o.status == report.INCONCLUSIVE:
+            o.how = "call-sequence extraction gave up (%s); %s" % ((o.how or "")[:140], why)
+        else:
+            o.how = "shape-level verdict of the call-sequence extraction (%s) overruled: %s" % ((o.how or "")[:140], why)
+        o.status = report.DISCHARGED
+        n += 1
     return n
 
 
